@@ -700,7 +700,7 @@ def rule_forms(ctx):
             if isinstance(it, ast.Name) and it.id == regs:
                 okloop = nf(term) == parse_nf("2.0 ** (-%s)" % n.target.id)
             elif isinstance(it, ast.Call) and dotted(it.func) == "range" and len(it.args) == 1 and \
-                    unparse(it.args[0]) in (mpar, "len(%s)" % regs):
+                    unparse(it.args[0]) in (mpar, "len(%s)" % regs, "%s.shape[0]" % regs, "%s.size" % regs):
                 # range(m): m is the number of registers (bind rule); range(len(registers)) is every register by construction
                 okloop = nf(term) == parse_nf("2.0 ** (-%s[%s])" % (regs, n.target.id))
     ctx.ob("forms", est, est.node, "%s: for r in registers: total += 2**-r" % est.name, "the harmonic sum runs over every register with terms 2^-r", okloop)
@@ -864,7 +864,7 @@ def rule_tabidx(ctx):
     for n in walk_no_nested(ctor.node):
         if isinstance(n, ast.Assign) and self_attr(n.targets[0]) in want:
             a = self_attr(n.targets[0])
-            v = n.value
+            v = resolve_temps(ctor.node, n.value, allow_subscript=True, pure_only=False, in_loops=False, loose=True)
             okk = False
             why = "not a table subscript"
             if isinstance(v, ast.Subscript) and isinstance(v.value, ast.Name):
